@@ -267,8 +267,10 @@ Definition judge_step (s : fstate) (name : string) (a data fds : list N) (region
                 if is_ok res then
                   (if negb good then (6, s1)
                    else match ok_vals res with
-                        | [VL []] => ((if (v =? 256) && match sfds with [] => true | _ => false end then 0 else 3), s1)
-                        | [VL [VN x]] => ((match sfds with [f] => if (v =? 0) && (x =? f) then 0 else 3 | _ => 3 end), s1)
+                        (* a value that announces no descriptor but comes with some, or announces one and comes with
+                           none or several, is not a well-formed reply (C06); a failure value taken for success is C03 *)
+                        | [VL []] => ((if v =? 256 then match sfds with [] => 0 | _ => 6 end else 3), s1)
+                        | [VL [VN x]] => ((if v =? 0 then match sfds with [f] => if x =? f then 0 else 3 | _ => 6 end else 3), s1)
                         | _ => (3, s1)
                         end)
                 else
